@@ -30,6 +30,7 @@ type FileManager struct {
 	patch map[string][]*plugin.Generated
 	index map[string]int
 	count map[string]int
+	alias map[string]string // name created by renaming a conflicting file -> the name it was renamed from
 	log   backend.LogFunc
 }
 
@@ -39,6 +40,7 @@ func NewFileManager(log backend.LogFunc) *FileManager {
 		patch: make(map[string][]*plugin.Generated),
 		index: make(map[string]int),
 		count: make(map[string]int),
+		alias: make(map[string]string),
 		log:   log,
 	}
 }
@@ -83,17 +85,22 @@ FileLoop:
 					}
 					renamed = fmt.Sprintf("%s_%d%s", pth, cnt, ext)
 					if cnt > fm.count[name] {
-						break
-					} else {
+						if _, taken := fm.index[renamed]; !taken {
+							break
+						}
+						// the candidate name belongs to an unrelated file: skip this suffix
+						fm.count[name]++
+					} else if fm.alias[renamed] == name {
 						idx = fm.index[renamed]
-						cnt++
 					}
+					cnt++
 				}
 
 				fm.log.Warn(fmt.Sprintf("[%s] file names conflict: '%s' (%d <> %d)", src, name, len(fm.files[fst].Content), len(f.Content)))
 				fm.index[renamed] = len(fm.files)
 				fm.files = append(fm.files, f)
 				fm.count[name]++
+				fm.alias[renamed] = name
 				f.Name = &renamed
 				name = renamed // propagate the new name to last
 			}
